@@ -184,3 +184,23 @@ def validate_shard(workdir, shard_path, heap='3g', timeout=3600):
     gen, distinct = parse_stats(out)
     fails = parse_printed(out)
     return fails, {'generated': gen, 'distinct': distinct, 'wall_s': round(wall, 2)}
+
+
+def prove(workdir, module='FMKindProofs', timeout=900):
+    """Check a TLAPS proof module (spec/proofs) with tlapm; -> summary line.  A failed proof is a TLCError."""
+    os.makedirs(workdir, exist_ok=True)
+    src = os.path.join(SPEC_DIR, 'proofs', module + '.tla')
+    shutil.copy(src, os.path.join(workdir, module + '.tla'))
+    if shutil.which('tlapm') is None:
+        return 'tlapm not installed: proof not checked'
+    try:
+        pr = subprocess.run(['tlapm', '--cleanfp', module + '.tla'], cwd=workdir, capture_output=True, text=True, timeout=timeout)
+    except (OSError, subprocess.TimeoutExpired) as exc:
+        return 'tlapm could not be run (%s): proof not checked' % type(exc).__name__
+    out = pr.stdout + pr.stderr
+    m = re.search(r'All (\d+) obligations? proved', out)
+    if m and pr.returncode == 0:
+        return 'tlapm: all %s obligations of %s proved' % (m.group(1), module)
+    if re.search(r'obligations? failed', out):       # the proof itself does not go through: the lemma is in doubt
+        raise TLCError('proof %s rejected by tlapm:\n%s' % (module, out[-1500:]))
+    return 'tlapm ended without a verdict (exit %d): proof not checked' % pr.returncode
